@@ -115,6 +115,16 @@ fn main() {
                         else { sched::run_incr(&obs, &scenarios, &mut w, &scratch) };
             println!("{stats}");
         }
+        "locks" => {
+            let out = std::fs::File::create(a.get("out").expect("--out")).unwrap();
+            let mut w = BufWriter::new(out);
+            let t: usize = a.get("threads").map(|x| x.parse().unwrap()).unwrap_or(8);
+            let n: usize = a.get("iters").map(|x| x.parse().unwrap()).unwrap_or(150);
+            let r = sched::run_locks(&obs, &mut w, &scratch, t, n);
+            use std::io::Write as _;
+            w.flush().unwrap();
+            println!("{}", r);
+        }
         "backup" => {
             let scenarios = read_ndjson(a.get("in").expect("--in"));
             let out = std::fs::File::create(a.get("out").expect("--out")).unwrap();
